@@ -16,11 +16,15 @@ fn neighbours(x: u64) {
     if x.wrapping_mul(0x9E37_79B9_7F4A_7C15) >> 62 != 0 {
         return;
     }
-    let _ = guarded(|| match (x >> 3) % 4 {
+    let _ = guarded(|| match (x >> 3) % 6 {
         0 => since_gps_week_to_unix_s(x) as u128,
         1 => since_gps_week_to_unix_s(x ^ 1) as u128,
         2 => since_today_to_nanos(x as u128 % 86_400_000_000_000),
-        _ => today_in_s(x as u128),
+        3 => today_in_s(x as u128),
+        // a value that cannot be a time of week (a sensor without GNSS reports its uptime counter): whatever the
+        // judged function makes of it is not judged, but it must not change what it returns for times of week
+        4 => since_gps_week_to_since_today(x % 604_800_000_000_000 + 604_800_000_000_000) as u128,
+        _ => since_gps_week_to_since_today(u64::MAX - (x % 1000)) as u128,
     });
 }
 
@@ -78,7 +82,7 @@ fn check_week(r: &mut Report, u: u64, class: &str) {
 }
 
 pub fn run(a: &Args, r: &mut Report) {
-    r.rule = "t: every ns of [0, 2 ms) and of 2 ms around each 18 s + k*day boundary and the week end, stride-997-ns sweeps of +-60 s around each of the 8 day boundaries, every whole second of the week (sharded), random t; u: random Unix times 1980-01-06+18s..2100, every week boundary 1980..2100 +-20 s. distinct = distinct argument values whose result matched the i128 reference Before one judged value in four the module's other conversions (since_gps_week_to_unix_s on the same or a neighbouring value, since_today_to_nanos, today_in_s) are called, as the SeRo reader does.".into();
+    r.rule = "t: every ns of [0, 2 ms) and of 2 ms around each 18 s + k*day boundary and the week end, stride-997-ns sweeps of +-60 s around each of the 8 day boundaries, every whole second of the week (sharded), random t; u: random Unix times 1980-01-06+18s..2100, every week boundary 1980..2100 +-20 s. distinct = distinct argument values whose result matched the i128 reference Before one judged value in four the module's other conversions (since_gps_week_to_unix_s on the same or a neighbouring value, since_today_to_nanos, today_in_s) are called, as the SeRo reader does, or the judged function itself is called with a value that cannot be a time of week (not judged).".into();
     if let Some(p) = &a.replay {
         let v: serde_json::Value = serde_json::from_str(&std::fs::read_to_string(p).unwrap()).unwrap();
         let rp = &v["replay"];
